@@ -29,7 +29,18 @@ def main(argv=None):
     if args.replay:
         with open(args.replay) as f:
             body = json.load(f)
-        res = mod.replay(body["case"], ctx)
+        if isinstance(body.get("case"), dict) and "crashed_unit" in body["case"]:
+            if body["case"]["crashed_unit"] == "plan":
+                try:
+                    ctx.tier = body["case"].get("tier", ctx.tier)
+                    mod.plan(ctx)
+                    res = {"reproduced": False}
+                except BaseException as e:
+                    res = {"reproduced": True, "exception": "%s: %s" % (type(e).__name__, str(e)[:200])}
+            else:
+                res = harness.replay_crashed_unit(mod, ctx, body["case"])
+        else:
+            res = mod.replay(body["case"], ctx)
         print(harness.jdump(res, indent=1))
         print("REPRODUCED" if res.get("reproduced") else "NOT-REPRODUCED")
         return 1 if res.get("reproduced") else 0
